@@ -1,7 +1,7 @@
 \* widest family: meant for seeded simulation (checks/c12.py passes -simulate); far too large for exhaustive search
 SPECIFICATION Spec
 CONSTANTS
-  Family = "batch"
+  Families = {"batch"}
   Tier = "thorough"
 VIEW View
 INVARIANTS OneResultEach Sound Complete SoundOnScenario OnlyNeeded InOrder NothingWithoutKeys StoredFetched NothingInvented TopErrOnlyDB ClassSane Emit
